@@ -137,7 +137,7 @@ def _gen_case(seed, tier, index=0):
             opts["holders"] = ["Jane Doe"]
     if rng.chance(0.05):
         opts["holders"] = LONG_HOLDERS[: rng.randint(45, 60)]
-    awkward = rng.randrange(16)
+    awkward = rng.randrange(17)
     if awkward == 0:
         # one holder, several years, given as ready-made notices in ONE invocation (kept verbatim by the tool)
         pfx, h = rng.pick(["Copyright", "SPDX-FileCopyrightText:", "\u00a9", "Copyright (C)"]), rng.pick(A.SAFE_HOLDERS)
@@ -173,6 +173,12 @@ def _gen_case(seed, tier, index=0):
         opts.pop("multi_line", None)
         opts.pop("template", None)
         extra = []
+    if awkward == 5:
+        # a contributor whose name looks like a notice to the reader of copyright lines
+        opts["contributors"] = [rng.pick(["Copyright Office", "Copyright Clearance Center <ccc@example.org>", "The Copyright (C) Collective",
+                                          "\u00a9 Studio"])]
+        opts.pop("template", None)
+        extra = []
     if rng.chance(0.15):
         opts["merge_copyrights"] = True
     if rng.chance(0.1) and foreign_head is None:
@@ -201,7 +207,7 @@ def _gen_case(seed, tier, index=0):
     if foreign_head is not None and not opts.get("force_dot_license"):
         case["world"]["files"][0]["content"] = G.comment(style, foreign_head, multi=not G.can_single(style)) + "\n\n" + G.body_for(style)
         case["body"] = "foreign-notices"
-    if awkward == 1:
+    if awkward in (1, 5):
         case["may_refuse"] = True
     if rng.chance(0.2):
         _cross_seed(case, rng)
